@@ -232,6 +232,60 @@ Proof.
 Qed.
 
 
+(* ---- (7) draw discipline of HMC::step (Model/HMC.v: hmc_mom_idx, hmc_uni_idx, hmc_draws_eval).
+   ONE generator per sampler; step s of a sampler with n chains of dimension d takes the n*d momenta
+   (chain r, coordinate j: stream position s*(n*d+n) + r*d + j) and then the n uniforms (chain r:
+   position s*(n*d+n) + n*d + r).  Over k steps every position is below k*(n*d+n), no position is
+   read twice (the maps are injective and their ranges disjoint) and none is skipped (every
+   position below k*(n*d+n) is a momentum or a uniform position of some step). ---- *)
+From MiniMcmc Require Import Proofs.Draws.
+Close Scope Z_scope.
+Close Scope N_scope.
+Local Open Scope nat_scope.
+
+Theorem C02_draw_discipline : forall n d k : nat,
+  (forall s r j, r < n -> j < d -> s < k -> hmc_mom_idx n d s r j < k * (n * d + n)) /\
+  (forall s r, r < n -> s < k -> hmc_uni_idx n d s r < k * (n * d + n)) /\
+  (forall s r j s' r' j', r < n -> j < d -> r' < n -> j' < d ->
+     hmc_mom_idx n d s r j = hmc_mom_idx n d s' r' j' -> s = s' /\ r = r' /\ j = j') /\
+  (forall s r s' r', r < n -> r' < n ->
+     hmc_uni_idx n d s r = hmc_uni_idx n d s' r' -> s = s' /\ r = r') /\
+  (forall s r j s' r', r < n -> j < d -> r' < n -> hmc_mom_idx n d s r j <> hmc_uni_idx n d s' r') /\
+  (forall p, p < k * (n * d + n) ->
+     (exists s r j, s < k /\ r < n /\ j < d /\ p = hmc_mom_idx n d s r j) \/
+     (exists s r, s < k /\ r < n /\ p = hmc_uni_idx n d s r)).
+Proof.
+  intros n d k.
+  exact (conj (fun s r j => hmc_mom_idx_range n d k s r j)
+        (conj (fun s r => hmc_uni_idx_range n d k s r)
+        (conj (hmc_mom_idx_inj n d)
+        (conj (hmc_uni_idx_inj n d)
+        (conj (hmc_mom_uni_disjoint n d) (hmc_idx_cover n d k)))))).
+Qed.
+
+(* the model reads the stream sequentially: what it selects, in its own order (step by step, momenta
+   row-major then uniforms), is position 0, 1, 2, ... of the stream -- k*(n*d+n) values, and when the
+   stream is long enough exactly its prefix of that length *)
+Theorem C02_draw_reading : forall (n d k : nat) (events : list Z),
+  length (hmc_draws_eval n d k events) = k * (n * d + n) /\
+  hmc_draws_eval n d k events = map (fun i => nth i events (-1)%Z) (seq 0 (k * (n * d + n))) /\
+  (k * (n * d + n) <= length events ->
+     hmc_draws_eval n d k events = firstn (k * (n * d + n)) events).
+Proof.
+  intros n d k events.
+  exact (conj (hmc_draws_eval_length n d k events)
+        (conj (hmc_draws_eval_seq n d k events) (hmc_draws_eval_prefix n d k events))).
+Qed.
+
+(* n = 3 chains, d = 2, k = 2 steps (9 draws per step): the 18 positions, in the order the model reads
+   them, are 0, 1, ..., 17; on a 20-value stream the model selects the first 18 values *)
+Example C02_draw_concrete :
+  concat (map (fun s => concat (map (fun r => map (hmc_mom_idx 3 2 s r) (seq 0 2)) (seq 0 3))
+                        ++ map (hmc_uni_idx 3 2 s) (seq 0 3)) (seq 0 2)) = seq 0 18 /\
+  hmc_mom_idx 3 2 1 2 1 = 14 /\ hmc_uni_idx 3 2 1 0 = 15 /\
+  hmc_draws_eval 3 2 2 (map Z.of_nat (seq 100 20)) = map Z.of_nat (seq 100 18).
+Proof. vm_compute. repeat split. Qed.
+
 Print Assumptions C02_impl_is_spec.
 Print Assumptions C02_either_or.
 Print Assumptions C02_either_or_R.
@@ -249,3 +303,5 @@ Print Assumptions C02_q_leapfrog_is_real.
 Print Assumptions C02_q_hamiltonian_is_real.
 Print Assumptions C02_q_step_is_real.
 Print Assumptions C02_q_targets_are_real.
+Print Assumptions C02_draw_discipline.
+Print Assumptions C02_draw_reading.
